@@ -365,21 +365,23 @@ class NetworkGraph(AbstractBaseIR):
         data = dict()
         for source, target, idx in edges:
             edge = self.edges[(source, target, idx)]
-            if source not in data:
-                data[source] = dict()
+            # one entry per source VARIABLE: two variables of one source node are two inputs of the target variable
+            skey = (source, edge.get('source_var'))
+            if skey not in data:
+                data[skey] = dict()
             for key in keys:
                 raw = edge.get(key)
                 val = raw if isinstance(raw, (np.ndarray, EdgeIR)) else deepcopy(raw)
                 try:
-                    data[source][key].extend(val)
+                    data[skey][key].extend(val)
                 except AttributeError:
-                    field = data[source][key]
+                    field = data[skey][key]
                     if type(field) is str or field is None:
                         pass
                     else:
-                        data[source][key] = [field, val]
+                        data[skey][key] = [field, val]
                 except KeyError:
-                    data[source][key] = val
+                    data[skey][key] = val
         return data
 
     def _add_matrix_delay(self, node: str, op: str, var: str, edge: tuple,
@@ -723,7 +725,8 @@ class NetworkGraph(AbstractBaseIR):
         # step 1: collect all inputs
         weights, source_indices, target_indices, sources = [], [], [], []
         edge_irs, edge_var_maps = [], []
-        for snode, sinfo in inputs.items():
+        for skey, sinfo in inputs.items():
+            snode = skey[0] if isinstance(skey, tuple) else skey
             weights.append(sinfo['weight'])
             source_indices.append(sinfo['source_idx'])
             target_indices.append(sinfo['target_idx'])
@@ -941,7 +944,7 @@ class NetworkGraph(AbstractBaseIR):
                 for t, s, w in zip(tidx, sidx, weight):
                     row = np.argwhere(tidx_unique == t).squeeze()
                     col = np.argwhere(sidx_unique == s).squeeze()
-                    weight_mat[row, col] = w
+                    weight_mat[row, col] += w      # parallel edges between one pair of units add up
 
                 # define edge projection equation
                 s_str_final = _get_indexed_var_str(s_str, sidx_unique, ssize, idx_str=sidx_str, arg_dict=args)
